@@ -2,7 +2,7 @@
 import os, sys, io, json, signal, shutil, tempfile, builtins, contextlib, importlib, traceback
 from vcheck import parse_fields
 
-RULE = ("each modifying sub-command of mid3v2 (delete-all, delete-frames, write), mid3cp (plain, --merge), mid3iconv and moggsplit run in a "
+RULE = ("each modifying sub-command of mid3v2 (delete-all, delete-v1, delete-v2, delete-frames, write, convert and their combinations), mid3cp (plain, --merge), mid3iconv and moggsplit run in a "
         "forked child on copies of sample files, with SIGINT/SIGTERM/SIGHUP delivered at every single event of the run: before each block, at "
         "each file-object operation inside it (open/read/seek/tell/write/truncate/flush/close), after each block. Compared with the Lean state "
         "machine's prediction for that schedule: operations executed per file, SystemExit, and with the undisturbed run: final bytes of every "
@@ -29,6 +29,11 @@ def scenarios(workdir, repo):
         ("mid3iconv", "force-v1", lambda: ["mid3iconv", "-e", "latin1", "-q", "--force-v1", cp("id3v1v2-combined.mp3", "a.mp3"), cp("silence-44-s-v1.mp3", "b.mp3")]),
         ("mid3v2", "delete-v1", lambda: ["mid3v2", "--delete-v1", cp("id3v1v2-combined.mp3", "a.mp3"), cp("silence-44-s-v1.mp3", "b.mp3")]),
         ("mid3v2", "delete-v2", lambda: ["mid3v2", "--delete-v2", cp("id3v1v2-combined.mp3", "a.mp3"), cp("silence-44-s.mp3", "b.mp3")]),
+        # -C/--convert: no edits, every file rewritten as v2.4 (an ID3v1-only file gets a new tag: the file has to grow)
+        ("mid3v2", "convert", lambda: ["mid3v2", "--convert", cp("silence-44-s-v1.mp3", "a.mp3"), cp("id3v1v2-combined.mp3", "b.mp3")]),
+        ("mid3v2", "convert+edit", lambda: ["mid3v2", "-C", "-t", "t" * 2000, cp("silence-44-s-v1.mp3", "a.mp3"), cp("silence-44-s.mp3", "b.mp3")]),
+        ("mid3v2", "delete-frames+edit", lambda: ["mid3v2", "--delete-frames=TIT2", "-a", "y" * 2500, cp("silence-44-s.mp3", "a.mp3"), cp("vbri.mp3", "b.mp3")]),
+        ("mid3cp", "exclude", lambda: ["mid3cp", "-x", "TIT2", "--exclude-tag=TALB", cp("silence-44-s.mp3", "src.mp3"), cp("no-tags.mp3", "dst.mp3")]),
         ("moggsplit", "split", lambda: ["moggsplit", "--m3u", cp("multiplexed.spx", "m.spx"), cp("empty.ogg", "e.ogg")]),
     ]
 
@@ -134,6 +139,14 @@ def child(tool, argv, workdir, deliver_at, signum, out_fd, second=None):
                     yield
                 finally:
                     tr.inblock = False
+            if deliver_at is None:
+                # reference run: what the files look like once this block is complete
+                import hashlib
+                snap = {}
+                for fn in sorted(os.listdir(workdir)):
+                    with real_open(os.path.join(workdir, fn), "rb") as h:
+                        snap[fn] = hashlib.sha1(h.read()).hexdigest()
+                result.setdefault("snaps", []).append(snap)
             tr.event("post")
         util.SignalHandler.block = block
         mod._sig.init()
@@ -187,6 +200,27 @@ def snapshot(workdir):
         with open(os.path.join(workdir, fn), "rb") as f:
             out[fn] = f.read()
     return out
+
+
+def state_mismatch(before, snaps, got_ns, after):
+    """the files after an interrupted run must be exactly what the undisturbed run leaves once the blocks that were
+    entered are complete (a command may pass over the same file in several blocks: delete-frames, then the edits):
+    -> name of a file that is in no such state, or None"""
+    import hashlib
+    j = len([n for n in got_ns if n > 0])
+    if j == 0:
+        exp = {fn: hashlib.sha1(d).hexdigest() for fn, d in before.items()}
+    elif j <= len(snaps):
+        exp = snaps[j - 1]
+    else:
+        raise RuntimeError("C20: the reference run recorded %d block snapshots, the interrupted run entered %d blocks" % (len(snaps), j))
+    for fn, data in after.items():
+        if exp.get(fn) != hashlib.sha1(data).hexdigest():
+            return fn
+    for fn in exp:
+        if fn not in after:
+            return fn
+    return None
 
 
 def blocks_of(events):
@@ -276,12 +310,10 @@ def _run(ctx, base):
                 if not str(res.get("exit", "")).startswith("SystemExit:Aborted"):
                     ctx.violation("%s:%s:no-abort" % (tool, sub), "signal delivered but the tool ended with %s" % res.get("exit"), case)
                 # (2) every file is as in the undisturbed run or untouched; no partial file
-                for fn, data in after.items():
-                    if data != ref_after.get(fn) and data != before.get(fn):
-                        ctx.violation("%s:%s:half-written" % (tool, sub), "file %s is neither untouched nor fully updated" % fn, case)
-                for fn in ref_after:
-                    if fn not in after:
-                        pass  # an output file of a later block that was never started
+                bad = state_mismatch(before, ref.get("snaps", []), got_ns, after)
+                if bad is not None:
+                    ctx.violation("%s:%s:half-written" % (tool, sub), "file %s is not what the undisturbed run leaves after the %d block(s) "
+                                  "that were entered (nor untouched)" % (bad, len([n for n in got_ns if n > 0])), case)
                 # (3) files entered are a prefix; an entered block ran all its operations
                 full = [a == b for a, b in zip(got_ns, ns)]
                 if got_ns and (got_ns[:-1] != ns[:len(got_ns) - 1] or (got_ns[-1] not in (0, ns[len(got_ns) - 1]))):
@@ -316,9 +348,10 @@ def _run(ctx, base):
                         continue
                     if not str(res.get("exit", "")).startswith("SystemExit:Aborted"):
                         ctx.violation("%s:%s:two-signals:no-abort" % (tool, sub), "two signals delivered but the tool ended with %s" % res.get("exit"), case)
-                    for fn, data in after.items():
-                        if data != ref_after.get(fn) and data != before.get(fn):
-                            ctx.violation("%s:%s:two-signals:half-written" % (tool, sub), "file %s is neither untouched nor fully updated" % fn, case)
+                    bad = state_mismatch(before, ref.get("snaps", []), blocks_of(res["events"]), after)
+                    if bad is not None:
+                        ctx.violation("%s:%s:two-signals:half-written" % (tool, sub), "file %s is not what the undisturbed run leaves after "
+                                      "the blocks that were entered" % bad, case)
                     got_ns = blocks_of(res["events"])
                     if got_ns and (got_ns[:-1] != ns[:len(got_ns) - 1] or (got_ns[-1] not in (0, ns[len(got_ns) - 1]))):
                         ctx.violation("%s:%s:two-signals:block-cut-short" % (tool, sub), "operations per file %r vs undisturbed %r" % (got_ns, ns), case)
